@@ -251,6 +251,164 @@ theorem runBranch_ok {env : Env} {body : Body} {cidOf : Nat → Bytes} {useMempo
             · exact hval2 e h2
           · cases hb
 
+/-- What an accepted block establishes. -/
+theorem execBlock_ok {env : Env} {body : Body} {cid : Bytes} {useMempool : Bool} {hit : Tx → Bool}
+    {W W' : World} {txs : List Tx} {log : List LogEntry}
+    (h : execBlock H Verify env body cid useMempool hit W txs = .ok (W', log)) :
+    Trace W.nonce log W'.nonce ∧ log.map (·.tx) = txs ∧
+    (∀ e ∈ log, validate H env.maxAER cid env.isPublic e.tx = none) ∧
+    txs.all (blockSigOk H Verify W.led.names useMempool hit) = true := by
+  unfold execBlock at h
+  split at h
+  · cases h
+  · rename_i W1 log1 hex
+    split at h
+    · rename_i hall
+      simp only [Except.ok.injEq, Prod.mk.injEq] at h
+      obtain ⟨hw, hl⟩ := h
+      subst hw hl
+      obtain ⟨htr, hmap, hval⟩ := execTxs_ok H hex
+      exact ⟨htr, hmap, fun e he => (hval e he).1, hall⟩
+    · cases h
+
+/-- A block with its header is accepted only if the header check passes and the block executes under the hash of
+the chain id the header carries. -/
+theorem execHBlockWith_ok {accept : (Nat → Nat) → HdrCid → Nat → HdrCid → Bool}
+    {env : Env} {body : Body} {hc : HdrCid → Bytes} {cfgVer : Nat → Nat} {useMempool : Bool}
+    {hit : Tx → Bool} {best : HdrCid} {height : Nat} {W : World} {hdr : HdrCid} {txs : List Tx} {r : World × List LogEntry}
+    (h : execHBlockWith H Verify accept env body hc cfgVer useMempool hit best height W hdr txs = .ok r) :
+    accept cfgVer best height hdr = true ∧ execBlock H Verify env body (hc hdr) useMempool hit W txs = .ok r := by
+  unfold execHBlockWith at h
+  split at h
+  · rename_i ha
+    split at h
+    · rename_i r' hb
+      simp only [Except.ok.injEq] at h
+      subst h
+      exact ⟨ha, hb⟩
+    · cases h
+  · cases h
+
+theorem acceptHeader_iff {cfgVer : Nat → Nat} {best h : HdrCid} {height : Nat} :
+    acceptHeader cfgVer best height h = true ↔ h.rest = best.rest ∧ h.version = cfgVer height := by
+  unfold acceptHeader validChildOf
+  simp only [Bool.and_eq_true, beq_iff_eq]
+  constructor
+  · rintro ⟨h1, h2⟩; exact ⟨h1.symm, h2⟩
+  · rintro ⟨h1, h2⟩; exact ⟨h1.symm, h2⟩
+
+/-- What an accepted chain of blocks (`runChainWith accept`) establishes: it is a valid branch in the sense of `runBranch`
+(so every branch theorem applies) with `cidOf j` = hash of the chain id block `j`'s header carries; and every executed
+transaction sits in the block it is logged for, passed `Validate` for that block's header chain-id hash, and that block's
+header passed `accept` against a predecessor carrying the same chain (`rest`) as the starting block. -/
+theorem runChainWith_ok {accept : (Nat → Nat) → HdrCid → Nat → HdrCid → Bool}
+    (hacc : ∀ cv b n h, accept cv b n h = true → h.rest = b.rest)
+    {env : Env} {body : Body} {hc : HdrCid → Bytes} {cfgVer : Nat → Nat} {hdrOf : Nat → HdrCid}
+    {useMempool : Bool} {hitOf : Nat → Tx → Bool} :
+    ∀ {blocks : List (List Tx)} {i : Nat} {best : HdrCid} {W W' : World} {hlog : List (Nat × LogEntry)},
+      runChainWith H Verify accept env body hc cfgVer hdrOf useMempool hitOf i best W blocks = some (W', hlog) →
+      runBranch H Verify env body (fun j => hc (hdrOf j)) useMempool hitOf i W blocks = some (W', hlog.map (·.2)) ∧
+      ∀ p ∈ hlog, i ≤ p.1 ∧ p.1 < i + blocks.length ∧
+        (∃ b, blocks[p.1 - i]? = some b ∧ p.2.tx ∈ b) ∧
+        validate H env.maxAER (hc (hdrOf p.1)) env.isPublic p.2.tx = none ∧
+        (∃ prev, prev.rest = best.rest ∧ accept cfgVer prev p.1 (hdrOf p.1) = true) := by
+  intro blocks
+  induction blocks with
+  | nil =>
+    intro i best W W' hlog h
+    simp only [runChainWith, Option.some.injEq, Prod.mk.injEq] at h
+    obtain ⟨h1, h2⟩ := h
+    subst h1 h2
+    exact ⟨by simp [runBranch], by simp⟩
+  | cons b bs ih =>
+    intro i best W W' hlog h
+    simp only [runChainWith] at h
+    split at h
+    · cases h
+    · rename_i W1 log1 hb
+      split at h
+      · cases h
+      · rename_i W2 log2 hrest
+        simp only [Option.some.injEq, Prod.mk.injEq] at h
+        obtain ⟨h1, h2⟩ := h
+        subst h1 h2
+        obtain ⟨ha, hex⟩ := execHBlockWith_ok H Verify hb
+        obtain ⟨hbr, hfacts⟩ := ih hrest
+        obtain ⟨_, hmap, hval, _⟩ := execBlock_ok H Verify hex
+        refine ⟨?_, ?_⟩
+        · simp only [runBranch, hex, hbr, List.map_append, List.map_map]
+          have hid : ∀ l : List LogEntry, List.map ((fun x : Nat × LogEntry => x.snd) ∘ fun e => (i, e)) l = l := by
+            intro l
+            induction l with
+            | nil => rfl
+            | cons x xs ihx => simp [ihx]
+          rw [hid]
+        · intro p hp
+          rcases List.mem_append.mp hp with h1 | h2
+          · obtain ⟨e, he, rfl⟩ := List.mem_map.mp h1
+            refine ⟨Nat.le_refl _, by simp, ⟨b, by simp, ?_⟩, hval e he, ⟨best, rfl, ha⟩⟩
+            rw [← hmap]
+            exact List.mem_map.mpr ⟨e, he, rfl⟩
+          · obtain ⟨hlo, hhi, ⟨b', hb', hin⟩, hv, ⟨prev, hprev, hap⟩⟩ := hfacts p h2
+            refine ⟨by omega, by simp only [List.length_cons]; omega, ⟨b', ?_, hin⟩, hv, ⟨prev, ?_, hap⟩⟩
+            · have : p.1 - i = (p.1 - (i + 1)) + 1 := by omega
+              rw [this, List.getElem?_cons_succ]
+              exact hb'
+            · rw [hprev]; exact hacc _ _ _ _ ha
+
+/-! ### The pool as the trust anchor of the block-level short-cut and of the node's own blocks -/
+
+/-- What the pool's gate (`MemPool.verifyTx` + `put`) established for an entry when it came in: `Validate` for the
+chain-id hash the pool accepted then, `Verify` true on (the sender's key — for a name sender the address the name
+resolved to then —, the digest of exactly the entry's fields, its signature), and it is filed under that address. -/
+def Gated (env : Env) (e : PEntry) : Prop :=
+  ∃ (cid : Bytes) (ns : Names), validate H env.maxAER cid env.isPublic e.tx = none ∧
+    Verify (poolKey ns e.tx) (H (signInput e.tx)) e.tx.sign = true ∧
+    e.acc = listAccount (if e.tx.named then poolKey ns e.tx else []) e.tx
+
+/-- Every way the contents of a node's pool can come about: it starts empty; a transaction comes in through
+`TxVerifier.Receive` (submitted over RPC, received from a peer, returned by a reorganisation) or from the dump file at
+start-up (`loadTxs`), each time against whatever state and accepted chain-id hash the pool has at that moment;
+entries leave (block arrival, eviction, removal, reset after a hard fork). -/
+inductive PoolReach (env : Env) (extra : World → Bytes → Tx → Option Nat) : List PEntry → Prop
+  | empty : PoolReach env extra []
+  | offer {P : List PEntry} (W : World) (acceptCid : Bytes) (t : Tx) (acc : Bytes) :
+      PoolReach env extra P → poolAdmit H Verify env acceptCid W (inPool P) extra t = .ok acc →
+      PoolReach env extra (P ++ [⟨t, acc⟩])
+  | load {P : List PEntry} (W : World) (acceptCid : Bytes) (t : Tx) (acc : Bytes) :
+      PoolReach env extra P → poolLoad H Verify env acceptCid W (inPool P) extra t = .ok acc →
+      PoolReach env extra (P ++ [⟨t, acc⟩])
+  | drop {P : List PEntry} (keep : PEntry → Bool) : PoolReach env extra P → PoolReach env extra (P.filter keep)
+
+/-- What the block factory's gathering establishes for every transaction it put into the block. -/
+theorem gatherTxs_ok {env : Env} {body : Body} {cid : Bytes} :
+    ∀ {cands : List PEntry} {W : World},
+      Trace W.nonce (gatherTxs H env body cid W cands).2 (gatherTxs H env body cid W cands).1.nonce ∧
+      ∀ e ∈ (gatherTxs H env body cid W cands).2, ∃ p ∈ cands, p.tx = e.tx ∧
+        validate H env.maxAER cid env.isPublic e.tx = none ∧
+        (verifiedOf p = [] ∨ verifiedOf p = e.account) ∧ ∃ ns, e.account = getAddress ns e.tx.account := by
+  intro cands
+  induction cands with
+  | nil => intro W; exact ⟨Trace.nil _, by simp [gatherTxs]⟩
+  | cons p ps ih =>
+    intro W
+    simp only [gatherTxs]
+    split
+    · obtain ⟨htr, hall⟩ := @ih W
+      refine ⟨htr, ?_⟩
+      intro e he
+      obtain ⟨q, hq, rest⟩ := hall e he
+      exact ⟨q, List.mem_cons_of_mem _ hq, rest⟩
+    · rename_i W1 e1 hx
+      obtain ⟨htr, hall⟩ := @ih W1
+      obtain ⟨hacc, htx, hver, hv, _, _⟩ := executeTx_ok H hx
+      refine ⟨Trace.cons (step_of_executeTx H hx) htr, ?_⟩
+      intro e he
+      rcases List.mem_cons.mp he with rfl | hm
+      · exact ⟨p, List.mem_cons_self, htx.symm, by rw [htx]; exact hv, hver, ⟨W.led.names, by rw [htx]; exact hacc⟩⟩
+      · obtain ⟨q, hq, rest⟩ := hall e hm
+        exact ⟨q, List.mem_cons_of_mem _ hq, rest⟩
+
 end
 
 /-! ### Per-account nonce sequences of a trace -/
